@@ -451,13 +451,19 @@ Proof.
   - repeat (split; [assumption|]). assumption.
 Qed.
 
-(* ... and when it has none: the segment itself becomes a member of the default groups *)
-Lemma conv_groups_none : forall S G1 s t reord,
-  GStruct G1 -> Sound S G1 -> In s S -> stag s = Some t ->
-  let G' := conv_groups true G1 None (sid s) t reord in
+(* ... and when the segment is made a member of the default groups itself: no group, or its group is
+   the default group of its type, or "all" *)
+Lemma conv_groups_member : forall S G1 s grp t reord,
+  GStruct G1 -> Sound S G1 -> In s S -> stag s = Some t -> own_group true grp t = false ->
+  let G' := conv_groups true G1 grp (sid s) t reord in
   GStruct G' /\ Sound S G' /\ grow G1 G' /\ preach G' (dname t) (sid s) /\ preach G' "all" (sid s).
 Proof.
-  intros S G1 s t reord HG1 HS1 Hs Et. unfold conv_groups. simpl.
+  intros S G1 s grp t reord HG1 HS1 Hs Et Hown.
+  assert (Econv : conv_groups true G1 grp (sid s) t reord =
+                  let G3 := add_member (add_member (setup_default G1 t) (dname t) (sid s)) "all" (sid s) in
+                  if reord then reorder G3 else G3).
+  { unfold conv_groups. destruct grp as [g|]; [rewrite Hown|]; reflexivity. }
+  rewrite Econv. clear Econv. cbv zeta.
   set (i := sid s) in *.
   destruct (setup_default_inv S G1 t HG1 HS1) as [HG2 [HS2 [Hgr2 [Hall2 HX2]]]].
   set (G2 := setup_default G1 t) in *.
@@ -489,33 +495,46 @@ Proof.
   - repeat (split; [assumption|]). assumption.
 Qed.
 
+(* the role a segment's own group may have *)
+Definition grp_role_ok (s : seg) (g : string) : Prop :=
+  g <> "" /\
+  (is_default g = false \/ (g = "all" /\ stag s <> None) \/ (exists t, g = dname t /\ stag s = Some t)).
+
 (* everything add_segment does to the groups, for a segment s (already in S) *)
 Lemma seg_groups_inv : forall S G s reord,
   GStruct G -> Sound S G -> In s S ->
-  (forall g, sgrp s = Some g -> g <> "" /\ is_default g = false) ->
+  (forall g, sgrp s = Some g -> grp_role_ok s g) ->
   let G' := seg_groups true G (sgrp s) (sid s) (stag s) reord in
   GStruct G' /\ Sound S G' /\ grow G G' /\
   (forall t, stag s = Some t -> preach G' (dname t) (sid s) /\ preach G' "all" (sid s)).
 Proof.
   intros S G s reord HG HS Hs Hgrp. unfold seg_groups.
   destruct (sgrp s) as [g|] eqn:Eg.
-  - destruct (Hgrp g eq_refl) as [Hne Hnd].
+  - destruct (Hgrp g eq_refl) as [Hne Hrole].
     set (G1 := add_member (ensure_group G g None) g (sid s)).
     assert (HG1 : GStruct G1) by (apply GStruct_add_member, GStruct_ensure; assumption).
     assert (HS1 : Sound S G1).
     { apply Sound_add_member; [apply Sound_ensure; exact HS|]. exists s. split; [exact Hs|].
-      split; [reflexivity|]. left. split; assumption. }
+      split; [reflexivity|]. destruct Hrole as [Hd|[Ha|Ht]]; [left; split; assumption | right; left; exact Ha | right; right; exact Ht]. }
     assert (Hgr1 : grow G G1) by (eapply grow_trans; [apply grow_ensure | apply grow_add_member]).
     assert (Hgi : preach G1 g (sid s)).
     { destruct (lookup_add_member _ g (sid s) (lookup_ensure G g None Hne)) as [g' [Hl' Hm]].
       eapply reach_mem; eassumption. }
     destruct (stag s) as [t|] eqn:Et.
-    + destruct (conv_groups_own S G1 s g t reord HG1 HS1 Hs Eg Et Hne Hnd Hgi) as [H1 [H2 [H3 [H4 H5]]]].
-      split; [exact H1|]. split; [exact H2|]. split; [eapply grow_trans; eassumption|].
-      intros t' E. inversion E; subst t'. split; assumption.
+    + destruct Hrole as [Hnd|Hdef].
+      * destruct (conv_groups_own S G1 s g t reord HG1 HS1 Hs Eg Et Hne Hnd Hgi) as [H1 [H2 [H3 [H4 H5]]]].
+        split; [exact H1|]. split; [exact H2|]. split; [eapply grow_trans; eassumption|].
+        intros t' E. inversion E; subst t'. split; assumption.
+      * assert (Hown : own_group true (Some g) t = false).
+        { unfold own_group. destruct Hdef as [[Ha _]|[t' [Hd Ht']]].
+          - subst g. destruct t; reflexivity.
+          - inversion Ht'; subst t' g. rewrite String.eqb_refl. reflexivity. }
+        destruct (conv_groups_member S G1 s (Some g) t reord HG1 HS1 Hs Et Hown) as [H1 [H2 [H3 [H4 H5]]]].
+        split; [exact H1|]. split; [exact H2|]. split; [eapply grow_trans; eassumption|].
+        intros t' E. inversion E; subst t'. split; assumption.
     + split; [exact HG1|]. split; [exact HS1|]. split; [exact Hgr1|]. intros t E. discriminate.
   - destruct (stag s) as [t|] eqn:Et.
-    + destruct (conv_groups_none S G s t reord HG HS Hs Et) as [H1 [H2 [H3 [H4 H5]]]].
+    + destruct (conv_groups_member S G s None t reord HG HS Hs Et eq_refl) as [H1 [H2 [H3 [H4 H5]]]].
       split; [exact H1|]. split; [exact H2|]. split; [exact H3|].
       intros t' E. inversion E; subst t'. split; assumption.
     + split; [exact HG|]. split; [exact HS|]. split; [apply grow_refl|]. intros t E. discriminate.
